@@ -73,7 +73,7 @@ impl Prop for C09 {
     fn rule(&self) -> String {
         "per untrusted-input surface, under catch_unwind with overflow checks and debug assertions on: AEAD ciphertexts of every length 0..64 and 1 KiB; Noise handshake messages of every length 0..200, 65535, 65536 \
          (random, and prefixes / bit flips of a valid message); key-mode and password-mode files = every prefix of valid files, single-bit flips, hostile length and flag fields, wrong magics, appended bytes, random bytes; \
-         encoded public / private key strings over {base64 alphabet, padding, whitespace, UTF-8} with lengths 0..130; keyring texts; heap peak while rejecting hostile length fields; the real binary with every argument vector of length <= 2 over a 40-word vocabulary (commands, aliases, options in all spellings, values, oddities) and seeded longer vectors, in a world with files, environment and piped stdin but no terminal: exit status 0 or 1, an Error: line iff 1, no signal, no hang, and the same exit status and files as the Lean CLI model; and the commands that take a password run with a terminal on standard input (a pseudo-terminal nobody types on) and a wrong or unset KESTREL_PASSWORD: they must terminate with exit 1. \
+         encoded public / private key strings over {base64 alphabet, padding, whitespace, UTF-8} with lengths 0..130; keyring texts; heap peak while rejecting hostile length fields; the real binary with every argument vector of length <= 2 over a 40-word vocabulary (commands, aliases, options in all spellings, values, oddities) and seeded longer vectors, in a world with files, environment and piped stdin but no terminal: exit status 0 or 1, an Error: line iff 1, no signal, no hang, and the same exit status and files as the Lean CLI model; argument vectors and a KESTREL_PASSWORD value containing invalid UTF-8 (5 byte patterns x 6 positions): exit 1 with an Error: line, nothing written; and the commands that take a password run with a terminal on standard input (a pseudo-terminal nobody types on) and a wrong or unset KESTREL_PASSWORD: they must terminate with exit 1. \
          compared: result class (ok | err | crash) of the implementation vs the Lean model; non-trivial = distinct (surface, length / mutation kind, outcome)".into()
     }
     fn cases(&self, tier: &str, seed: u64) -> Vec<Case> {
@@ -104,6 +104,8 @@ impl Prop for C09 {
         for a in 0..nv { v.push(case(&[("surface", "argv".into()), ("words", a.to_string()), ("seed", rng.next().to_string())]));
             for b in 0..nv { v.push(case(&[("surface", "argv".into()), ("words", format!("{},{}", a, b)), ("seed", rng.next().to_string())])); } }
         for _ in 0..(if th { 10000 } else { 1500 }) { let n = rng.range(3, 9); let ws: Vec<String> = (0..n).map(|_| if rng.chance(1, 2) { rng.below(12).to_string() } else { rng.below(nv).to_string() }).collect(); v.push(case(&[("surface", "argv".into()), ("words", ws.join(",")), ("seed", rng.next().to_string())])); }
+        // argument vectors and environment values that are not UTF-8
+        for pos in 0..6usize { for bad in ["ff", "c328", "eda080", "f8808080", "e28228"] { if th || pos % 2 == 0 || bad == "ff" { v.push(case(&[("surface", "osargs".into()), ("pos", pos.to_string()), ("bad", bad.into()), ("seed", rng.next().to_string())])); } } }
         // the same tool with a terminal on standard input (nobody types): it must still terminate
         for cmd in ["decrypt", "encrypt", "pass-decrypt", "extract-pub", "change-pass"] { for pw in ["wrong", "unset"] { v.push(case(&[("surface", "tty".into()), ("cmd", cmd.into()), ("pw", pw.into()), ("seed", rng.next().to_string())])); } }
         for i in 0..(if th { 40 } else { 12 }) { v.push(case(&[("surface", "heap".into()), ("mode", (if i % 2 == 0 { "key" } else { "pass" }).into()), ("seed", rng.next().to_string())])); }
@@ -153,6 +155,26 @@ impl Prop for C09 {
                 o.nontrivial = Some(format!("noise/{}/{}/{}", msg.len(), mode, o.impl_obs));
                 if r.is_none() { fail_crash(&mut o, &format!("noise_decrypt ({}-byte handshake message)", msg.len())); }
                 else if o.impl_obs != o.model_obs { o.disagreement = Some(format!("impl {} model {}", o.impl_obs, o.model_obs)); }
+            }
+            "osargs" => {
+                use crate::cli::*;
+                let fx = fixtures();
+                let bad = unhex(get(c, "bad")); let pos = getn(c, "pos");
+                let plain = rng.bytes(20);
+                let w = World { files: vec![("p".into(), plain), ("kr".into(), keyring(&[(&fx.alice, true), (&fx.bob, true)]).into_bytes())], env: vec![("KESTREL_PASSWORD".into(), fx.alice.pw.into())], stdin: vec![] };
+                let base: Vec<Vec<u8>> = ["encrypt", "p", "-t", "bob", "-f", "alice", "-o", "c", "-k", "kr", "--env-pass"].iter().map(|s| s.as_bytes().to_vec()).collect();
+                let mut junk = b"x".to_vec(); junk.extend_from_slice(&bad); junk.push(b'y');
+                // pos 0..3: the invalid bytes replace the command / input / recipient / output value; 4: appended as an extra argument; 5: in KESTREL_PASSWORD instead
+                let (args, envr): (Vec<Vec<u8>>, Vec<(&str, Vec<u8>)>) = match pos { 0 => { let mut a = base.clone(); a[0] = junk.clone(); (a, vec![]) } 1 => { let mut a = base.clone(); a[1] = junk.clone(); (a, vec![]) } 2 => { let mut a = base.clone(); a[3] = junk.clone(); (a, vec![]) }
+                    3 => { let mut a = base.clone(); a[7] = junk.clone(); (a, vec![]) } 4 => { let mut a = base.clone(); a.push(junk.clone()); (a, vec![]) } _ => (base.clone(), vec![("KESTREL_PASSWORD", junk.clone())]) };
+                let obs = run_kestrel_raw(&w, &args, &envr);
+                o.impl_obs = format!("exit={:?} signal={} stderr={:?}", obs.exit, obs.signal, obs.stderr.chars().take(100).collect::<String>()); o.model_obs = "exit 1 with an Error: line".into();
+                o.nontrivial = Some(format!("osargs/{}/{}", pos, get(c, "bad"))); o.tags.push(format!("non-UTF-8 {} -> exit {:?}", if pos == 5 { "KESTREL_PASSWORD" } else { "argument" }, obs.exit));
+                let what = format!("kestrel started with the bytes {} {}", get(c, "bad"), if pos == 5 { "inside KESTREL_PASSWORD (--env-pass)".to_string() } else { format!("inside argument {}", [0usize, 1, 3, 7, 11][pos]) });
+                if obs.signal || obs.timed_out || !matches!(obs.exit, Some(0) | Some(1)) { o.oracle_fail = Some(("exit-0-or-1".into(), format!("{}: exit {:?}, signal = {}, timed out = {}, stderr {:?}", what, obs.exit, obs.signal, obs.timed_out, obs.stderr))); }
+                else if (obs.exit == Some(1)) != obs.error_line() { o.oracle_fail = Some(("error-line-iff-exit-1".into(), format!("{}: exit {:?}, stderr {:?}", what, obs.exit, obs.stderr))); }
+                else if obs.exit == Some(0) { o.oracle_fail = Some(("undecodable-input-is-an-error".into(), format!("{}: exit 0", what))); }
+                else if obs.file("c").is_some() { o.oracle_fail = Some(("no-output-on-usage-error".into(), format!("{}: an output file was written", what))); }
             }
             "keyring" => {
                 // one or two well-formed sections and a stray line of `len` bytes (after trimming) somewhere among them
